@@ -332,13 +332,16 @@ INTERN = Interner()
 
 
 def ib(b) -> str:
+    """byte string as a compact literal: nb <len> 0x<hex> (Conn/ConnCheck.v)"""
     if isinstance(b, str):
         b = b.encode('utf-8', 'surrogateescape')
     if not b:
         return '(@nil N)'
-    if len(b) > 200:
-        return INTERN('big_', coq_bytes(b), 'bytes')
-    return INTERN('b_', coq_bytes(b), 'bytes')
+    if len(b) <= 200:
+        return f'(nb {len(b)} 0x{b.hex()})'
+    # nat literals stay small: long strings are concatenations
+    parts = [b[i:i + 200] for i in range(0, len(b), 200)]
+    return '(' + ' ++ '.join(f'nb {len(x)} 0x{x.hex()}' for x in parts) + ')%list'
 
 
 # ----------------------------------------------------------- IMAP sequences
@@ -460,8 +463,7 @@ def imap_case_term(E: Env, res: dict) -> str:
         stage = 'None' if st['stage'] is None else f'(Some {T.N(st["stage"])})'
         ob = INTERN('ao_', f'(mk_aobs {cond} {why} {T.boolean(st["bye"])} {T.N(st["used"])} '
                     f'{_opt(st["owner"])} {T.boolean(st["closed"])} {stage})', 'aobs')
-        k = INTERN('k_', attempt_model(a), 'cmd')
-        steps.append(f'(mk_astep {k} {ob})')
+        steps.append(f'(mk_astep {attempt_model(a)} {ob})')
     return f'(mk_acase {env_term(E, secrets, names)} {cfg_term(E)} {gob} {T.lst(steps)})'
 
 
@@ -700,8 +702,8 @@ def sieve_case_term(E: Env, res: dict) -> str:
                       f'{T.boolean(v["closed"])})', 'sobs')
     g = res['greeting']
     gcond = _sieve_done(g['out'])
-    steps = [f'(mk_sstep {INTERN("sk_", sattempt_model(st["attempt"]), "scmd")} '
-             f'{ob(st, st["cond"])})' for st in res['steps']]
+    steps = [f'(mk_sstep {sattempt_model(st["attempt"])} {ob(st, st["cond"])})'
+             for st in res['steps']]
     return (f'(mk_scase {env_term(E, secrets, names)} {cfg_term(E)} {ob(g, gcond)} '
             f'{T.lst(steps)})')
 
@@ -741,31 +743,37 @@ def monitor_sieve(ctx, E: Env, res: dict, replay: dict) -> None:
 
 
 # ---------------------------------------------------------------------- run
-def header_module(prop: str = 'C09') -> str:
-    import os
-    import subprocess
-    from .. import coqrun
-    text = HEADER + INTERN.header()
-    d = os.path.join(coqrun.WORK, 'cases', prop)
-    os.makedirs(d, exist_ok=True)
-    mod = f'{prop}hdr{os.getpid()}'
-    with open(os.path.join(d, mod + '.v'), 'w') as f:
-        f.write(text)
-    for old in os.listdir(d):      # leftovers of earlier runs (large)
-        if old.startswith(f'{prop}hdr') or old.startswith(f'.{prop}hdr'):
-            try:
-                os.remove(os.path.join(d, old))
-            except OSError:
-                pass
-    with open(os.path.join(d, mod + '.v'), 'w') as f:
-        f.write(text)
-    p = subprocess.run(['timeout', '600', 'coqc', '-noglob', '-Q',
-                        os.path.join(coqrun.COQ, 'theories'),
-                        coqrun.LOGICAL, mod + '.v'], cwd=d, stdout=subprocess.PIPE,
-                       stderr=subprocess.STDOUT)
-    if p.returncode != 0:
-        return text
-    return HEADER + f'Require Import {mod}.\n'
+def build_groups(items, build, size):
+    """Case terms in groups, each with its own table of interned sub-terms
+    (a group = one self-contained Coq file; groups are evaluated in parallel)."""
+    global INTERN
+    groups = []
+    for i in range(0, len(items), size):
+        INTERN = Interner()
+        cases = [build(x) for x in items[i:i + size]]
+        groups.append((HEADER + INTERN.header(), cases))
+    return groups
+
+
+def eval_groups(ctx, name, typ, chk, groups, size):
+    """Returns (bad global indices, {global index: (header, case term)})."""
+    from concurrent.futures import ThreadPoolExecutor
+
+    def one(gi):
+        hdr, cases = groups[gi]
+        return gi, ctx.run_cases(f'{name}_{gi}', hdr, typ, cases, chk, shard=size, jobs=1)
+    bad = []
+    with ThreadPoolExecutor(max_workers=12) as ex:
+        for gi, idx in ex.map(one, range(len(groups))):
+            bad.extend(gi * size + i for i in idx)
+    # fold the per-group entries of the evidence into one
+    mine = [c for c in ctx.corr if c['name'].startswith(name + '_')]
+    ctx.corr[:] = [c for c in ctx.corr if not c['name'].startswith(name + '_')]
+    ctx.corr.append({'name': name, 'cases': sum(c['cases'] for c in mine),
+                     'disagreements': sum(c['disagreements'] for c in mine),
+                     'groups': len(mine),
+                     'wall_s': round(max([c['wall_s'] for c in mine] or [0]), 2)})
+    return sorted(bad)
 
 
 def fixed_sequences() -> list[tuple[str, list[Attempt]]]:
@@ -839,8 +847,8 @@ def run(ctx) -> None:
     ctx.check_proofs(['Conn/AuthCheck'])
     ctx.extra['t_proofs_s'] = round(time.time() - t0, 1)
     rng = ctx.rng
-    n_imap = ctx.scale(1600, 50000)
-    n_sieve = ctx.scale(500, 12000)
+    n_imap = ctx.scale(900, 40000)
+    n_sieve = ctx.scale(300, 10000)
 
     async def main():
         envs = {}
@@ -883,7 +891,6 @@ def run(ctx) -> None:
                   'attempts': [{'line': a.line.decode('latin-1'),
                                 'lines': [x.decode('latin-1') for x in a.lines]} for a in attempts]}
         monitor_imap(ctx, E, res, replay)
-        cases.append(imap_case_term(E, res))
         okd = any(st['cond'] == 'OK' and st['attempt'].kind in ('login', 'plain', 'sasl_login')
                   for st in res['steps'])
         ctx.count(('imap', E.name, tuple((a.line, tuple(a.lines)) for a in attempts)),
@@ -902,7 +909,6 @@ def run(ctx) -> None:
                   'attempts': [{'line': a.line.decode('latin-1'),
                                 'lines': [x.decode('latin-1') for x in a.lines]} for a in attempts]}
         monitor_sieve(ctx, E, res, replay)
-        scases.append(sieve_case_term(E, res))
         okd = any(st['cond'] == 'OK' and st['attempt'].kind == 'auth' for st in res['steps'])
         ctx.count(('sieve', E.name, tuple((a.line, tuple(a.lines)) for a in attempts)),
                   nontrivial=okd)
@@ -916,12 +922,14 @@ def run(ctx) -> None:
                     'conds': [s['cond'] for s in res['steps']],
                     'who': [s['who'] for s in res['steps']]})
     t2 = time.time()
-    hdr = header_module()
     from .. import coqrun
-    bad = ctx.run_cases('imap_auth', hdr, 'auth_case', cases, 'chk_auth', shard=800, jobs=12)
+    GS = 100
+    groups = build_groups(imap_runs, lambda r: imap_case_term(r[0], r[2]), GS)
+    bad = eval_groups(ctx, 'imap_auth', 'auth_case', 'chk_auth', groups, GS)
     for i in bad[:5]:
         E, attempts, res = imap_runs[i]
-        where = coqrun.eval_term(ctx.prop, f'where_{i}', hdr, f'where_abad {cases[i]}')
+        hdr, cases = groups[i // GS]
+        where = coqrun.eval_term(ctx.prop, f'where_{i}', hdr, f'where_abad {cases[i % GS]}')
         ctx.disagreement('imap_auth', {
             'env': E.name,
             'impl': [(s['attempt'].label, s['attempt'].line.decode('latin-1')[:60],
@@ -929,10 +937,12 @@ def run(ctx) -> None:
                       s['cond'], s['text'].decode('latin-1')[:40], s['owner'], s['stage'],
                       s['closed']) for s in res['steps']],
             'model_first_difference': where[-600:]})
-    sbad = ctx.run_cases('sieve_auth', hdr, 'sieve_case', scases, 'chk_sieve', shard=800, jobs=12)
+    sgroups = build_groups(sieve_runs, lambda r: sieve_case_term(r[0], r[2]), GS)
+    sbad = eval_groups(ctx, 'sieve_auth', 'sieve_case', 'chk_sieve', sgroups, GS)
     for i in sbad[:5]:
         E, attempts, res = sieve_runs[i]
-        where = coqrun.eval_term(ctx.prop, f'swhere_{i}', hdr, f'where_sbad {scases[i]}')
+        hdr, scs = sgroups[i // GS]
+        where = coqrun.eval_term(ctx.prop, f'swhere_{i}', hdr, f'where_sbad {scs[i % GS]}')
         ctx.disagreement('sieve_auth', {
             'env': E.name,
             'impl': [(s['attempt'].label, s['attempt'].line.decode('latin-1')[:70],
